@@ -115,7 +115,7 @@ CHECKS = {
     "C03": dict(
         pkg="c03", race=False, shards=(4, 16), timeout_s=(300, 2400),
         technique="lock-step reference-model monitor over seeded op sequences + porcupine linearizability check of recorded concurrent histories + quiescence invariant",
-        level_text="Requests that carry no tag or a non-string tag (never the empty tag), the empty pattern among the bundled matcher's patterns; lookup requests racing with the removal of their partition (400 rounds per storm case: admitted <=> the removal reports 1 busy). Matcher patterns and keys include U+0130 (lower-case form longer in UTF-8). Release-window rounds (1500 per case): total at the limit, both partitions at their share; one goroutine releases a token of a while another keeps asking for b until the freed slot can be borrowed and then asks for a - which must be admitted. Sequential: after every acquire/release/SetLimit/add/remove step on both partitioned strategies the grant decision (the iff of the "
+        level_text="Two predicate strategies built from sub-slices of one array of partitions: additions to one (sequential or concurrent) leave the other admitting its own partitions. Requests that carry no tag or a non-string tag (never the empty tag), the empty pattern among the bundled matcher's patterns; lookup requests racing with the removal of their partition (400 rounds per storm case: admitted <=> the removal reports 1 busy). Matcher patterns and keys include U+0130 (lower-case form longer in UTF-8). Release-window rounds (1500 per case): total at the limit, both partitions at their share; one goroutine releases a token of a while another keeps asking for b until the freed slot can be borrowed and then asks for a - which must be admitted. Sequential: after every acquire/release/SetLimit/add/remove step on both partitioned strategies the grant decision (the iff of the "
                    "statement), total busy/limit, every bin count and every bin share are compared with an integer-arithmetic reference model "
                    "(dyadic and decimal fractions, zero fractions, unknown/unmatched/empty keys, overlapping predicates, limits set to <=0; lookup partition objects named differently from the key they are registered under, re-adding a registered key "
                    "must be refused; the bundled string matcher in both flavours with patterns in either case). "
@@ -123,7 +123,7 @@ CHECKS = {
                    "same model, bins must be zero at quiescence. Storms: 2-5 concurrent SetLimit callers, and AddPartition racing with a "
                    "limit change (barrier-released, 120 rounds): at quiescence every bin share must be the share of the limit in force. "
                    "Exploration over the sequences and interleavings produced.",
-        require=["acquire_vs_remove_rounds", "release_window_rounds_with_a_borrowed_grant", "acquires", "releases", "setlimits", "partition_adds", "partition_removes", "grants_on_guaranteed_share_while_total_full",
+        require=["strategies_built_from_sub_slices_of_one_array", "acquire_vs_remove_rounds", "release_window_rounds_with_a_borrowed_grant", "acquires", "releases", "setlimits", "partition_adds", "partition_removes", "grants_on_guaranteed_share_while_total_full",
                  "grants_borrowing_beyond_share", "requests_for_unknown_or_unmatched_keys", "concurrent_histories", "histories_linearizable",
                  "overlapping_operation_pairs", "sequential_cases/lookup", "sequential_cases/predicate", "storm_quiescent_share_checks", "storm_add_vs_setlimit_rounds", "partition_duplicate_adds_refused"],
         rule="sequential case = (strategy kind, 1-5 partitions with fractions k/32 or k/100 summing <=1, total limit 1-50, 20-120 ops); concurrent case = "
